@@ -43,6 +43,66 @@ def import_labella():
     return labella
 
 
+# ---- fresh import of labella inside a child (import-time state under the
+# ---- child's own environment), served from code objects compiled once
+
+_CODE = {}
+
+
+def _build_code_cache():
+    pkgdir = os.path.join(REPO, "labella")
+    for fn in sorted(os.listdir(pkgdir)):
+        if not fn.endswith(".py"):
+            continue
+        path = os.path.join(pkgdir, fn)
+        name = "labella" if fn == "__init__.py" else "labella." + fn[:-3]
+        with open(path, "rb") as f:
+            _CODE[name] = (compile(f.read(), path, "exec"), path, fn == "__init__.py")
+
+
+class _CachedLoader(object):
+    def create_module(self, spec):
+        return None
+
+    def exec_module(self, module):
+        exec(_CODE[module.__name__][0], module.__dict__)
+
+
+class _CachedFinder(object):
+    def find_spec(self, fullname, path=None, target=None):
+        if fullname not in _CODE:
+            return None
+        import importlib.util
+
+        code, fpath, is_pkg = _CODE[fullname]
+        return importlib.util.spec_from_file_location(
+            fullname, fpath, loader=_CachedLoader(),
+            submodule_search_locations=[os.path.dirname(fpath)] if is_pkg else None)
+
+
+_FINDER = _CachedFinder()
+
+
+def prepare_reimport():
+    """Called once in a worker: compile every labella module of REPO."""
+    if not _CODE:
+        _build_code_cache()
+
+
+def reimport_labella():
+    """Called in a forked child after its environment (TZ) is in force: drop
+    every labella module and import the package again, so that import-time
+    state is computed under the child's environment exactly as at process
+    start-up."""
+    prepare_reimport()
+    for m in list(sys.modules):
+        if m == "labella" or m.startswith("labella."):
+            del sys.modules[m]
+    if _FINDER not in sys.meta_path:
+        sys.meta_path.insert(0, _FINDER)
+    return import_labella()
+
+
 def repo_rev():
     try:
         rev = subprocess.check_output(
